@@ -24,7 +24,11 @@ R = Run('instance-operation histories of length <= 6 (state prefix of <= 5 creat
         'alphabet; all pairs of core write ops; seeded random histories) over generated schemas (1..3 namespaces, '
         'class tree depth 1..3, 3 key layouts, all CIM types incl. arrays/embedded instance/reference, association '
         'within and across namespaces) vs a reference dict model; valid/invalid/differently-cased/partial '
-        'arguments; in-place mutation of every passed or returned object after every call')
+        'arguments; in-place mutation of every passed or returned object after every call; PropertyList sweep for '
+        'ModifyInstance/GetInstance/EnumerateInstances: 20+ list shapes (None, empty, subset, superset, duplicates in '
+        'same/different case, key names, undeclared names, names absent from the ModifiedInstance, str, tuple, '
+        'ill-typed entries) x lexical case of the list entries x lexical case of the ModifiedInstance names '
+        '(declared/lower/upper/swapped/mixed; quick: 6 of the 25 pairs) over root/sub/leaf/association classes')
 
 # CIM status codes (DSP0200), written out here on purpose
 INVALID_NAMESPACE, INVALID_PARAMETER, INVALID_CLASS, NOT_FOUND, ALREADY_EXISTS = 3, 4, 5, 6, 11
@@ -316,10 +320,40 @@ class Exp:
         return 'success' + (' or CIMError ' + '/'.join(sorted(codename(c) for c in self.opt)) if self.opt else '')
 
 
+class TupPL(tuple):
+    """A PropertyList spec that is handed to the operation as a tuple (plain tuples are handed over as lists)."""
+
+
 def plnames(pl):
     if pl is None:
         return None
     return [pl] if isinstance(pl, str) else list(pl)
+
+
+STYLES = ('decl', 'lower', 'upper', 'swap', 'mix')
+
+
+def restyle(name, style, i=0):
+    """The name in another lexical case; 'mix' takes a different case for every position."""
+    if style == 'mix':
+        style = ('lower', 'upper', 'swap', 'decl')[i % 4]
+    return {'decl': name, 'lower': name.lower(), 'upper': name.upper(), 'swap': name.swapcase()}[style]
+
+
+def styled_pl(pl, style):
+    """PropertyList spec with every entry in the given case; ('alt', name) entries get a different case than the
+    entries around them, so that duplicates differ lexically whatever the style is."""
+    if pl is None:
+        return None
+    if isinstance(pl, str):
+        return restyle(pl, style)
+    alt = STYLES[(STYLES.index(style) + 2) % len(STYLES)]
+    out = tuple(restyle(n[1], alt, i + 1) if isinstance(n, tuple) else restyle(n, style, i) for i, n in enumerate(pl))
+    return TupPL(out) if isinstance(pl, TupPL) else out
+
+
+def styled_props(props, style):
+    return tuple((restyle(n, style, i), t, a, v) for i, (n, t, a, v) in enumerate(props))
 
 
 def filt(props, pl, restrict=None):
@@ -489,6 +523,12 @@ class Model:
             for n in plset:
                 if n in decl and n not in givennames:
                     d = decl[n]
+                    if d.key:
+                        # designated but no value given: a key cannot be set to NULL - rejecting the request and
+                        # leaving the key alone are both acceptable
+                        E.opt.add(INVALID_PARAMETER)
+                        E.hints.add('pl-absent-null-default')
+                        continue
                     new[n] = (d.type, d.arr, mnorm(d.type, d.arr, d.default))     # class default value or NULL
                     if d.default is None:
                         E.hints.add('pl-absent-null-default')
@@ -640,6 +680,14 @@ class Model:
         E.pyexc = (Exception,)      # any client-side argument error; what matters is that nothing changes
         return E
 
+    def exp_badpl(self, op):
+        """PropertyList with entries that are not strings: must fail (client-side exception, INVALID_PARAMETER, or
+        the status code of an error situation that holds anyway) and must not change anything."""
+        E = Exp()
+        E.pyexc = (Exception,)
+        E.opt = {INVALID_PARAMETER, NOT_FOUND, INVALID_CLASS, INVALID_NAMESPACE}
+        return E
+
     def expect(self, op):
         return getattr(self, 'exp_' + op[0])(op)
 
@@ -709,6 +757,8 @@ NONE = frozenset()
 
 
 def pyl(pl):
+    if isinstance(pl, TupPL):
+        return tuple(pl)
     return list(pl) if isinstance(pl, tuple) else pl
 
 
@@ -743,6 +793,17 @@ def call(conn, op):
                                           **dict(op[5]))
         elif kind == 'names':
             res = conn.EnumerateInstanceNames(op[2], namespace=op[1])
+        elif kind == 'badpl':
+            _, opname, ns, (pcls, keys), pl = op
+            p = list(pl)
+            passed[{'ModifyInstance': 'modify.pl', 'GetInstance': 'get.pl', 'EnumerateInstances': 'enum.pl'}[opname]] = p
+            if opname == 'ModifyInstance':
+                res = conn.ModifyInstance(mkinst(pcls, (('P_s', 'string', False, 'badpl'),), path=mkpath(ns, pcls, keys)),
+                                          PropertyList=p)
+            elif opname == 'GetInstance':
+                res = conn.GetInstance(mkpath(ns, pcls, keys), PropertyList=p)
+            else:
+                res = conn.EnumerateInstances(pcls, namespace=ns, PropertyList=p)
         elif kind == 'bad':
             what = op[1]
             if what == 'get-str':
@@ -772,6 +833,8 @@ def judge(E, outcome):
     """-> None or symptom string; applies the state change of an accepted success."""
     if outcome[0] == 'cim':
         if E.pyexc:
+            if outcome[1] in E.opt:
+                return None
             return 'status-' + codename(outcome[1]) + '-expected-python-exception'
         if outcome[1] in E.errs or outcome[1] in E.opt:
             return None
@@ -1184,6 +1247,239 @@ class Alphabet:
                 pre.append([c['root_a'], c['root_b'], c['assoc_ab'], c['assoc_ba_x']])
         self.prefixes = pre
 
+    # ---------------------------------------------------------------- PropertyList sweep
+    def build_pl(self, quick):
+        """Systematic PropertyList variants for ModifyInstance / GetInstance / EnumerateInstances.
+
+        Every list shape is crossed with the lexical case of the list entries and (ModifyInstance) independently with
+        the lexical case of the property names in the ModifiedInstance.  -> self.PLH: histories (state prefix + one
+        ModifyInstance, or + a chunk of observers); self.PLW / self.PLO: write ops the model expects to succeed /
+        observers, for the random histories; self.PLPRE: the state prefixes used."""
+        S, ns1, c, kp = self.S, self.ns1, self.cr, self.keyprops
+        ka, kb = self.ka, self.kb
+        othernss = S.nss[1:]
+        ops, H, PLW, PLO, PLPRE = [], [], [], [], []
+        seen = {}
+
+        def reg(op):
+            k = repr(op)
+            if k not in seen:
+                seen[k] = op
+                ops.append(op)
+                return op, True
+            return seen[k], False
+
+        if quick:
+            pairs = [('decl', 'lower'), ('lower', 'decl'), ('upper', 'swap'), ('swap', 'mix'), ('mix', 'upper'),
+                     ('lower', 'lower')]
+            ostyles = STYLES
+            estyles = ('lower', 'swap', 'mix')
+            chunk = 8
+        else:
+            pairs = [(m, p) for m in STYLES for p in STYLES]
+            ostyles = estyles = STYLES
+            chunk = 3
+
+        def changed(keys):
+            k, t, v = keys[-1]
+            nv = {'string': lambda: v + 'x', 'uint8': lambda: 77, 'datetime': lambda: DT2,
+                  'boolean': lambda: not v}[t]()
+            return keys[:-1] + ((k, t, nv),)
+
+        def expect_after(prefix, op):
+            m = Model(S)
+            for q in prefix:
+                e = m.expect(q)
+                if e.ok and e.apply:
+                    e.apply()
+            return m.expect(op)
+
+        # ---------------- ModifyInstance
+        def modify_shapes(keys, vals, ddef, dnull):
+            a, b = vals[0], vals[1]
+            an, bn = a[0], b[0]
+            names = tuple(v[0] for v in vals)
+            kn = tuple(k[0] for k in keys)
+            bad_a = (an, 'uint8', False, 5)           # a is a string property everywhere
+            kc = changed(keys)
+            return [('none', vals, None), ('empty', vals, ()), ('one', vals, (an,)), ('other', vals, (bn,)),
+                    ('all-rev', vals, tuple(reversed(names))), ('dupcase', vals, (an, ('alt', an), bn, ('alt', an))),
+                    ('str', vals, an), ('tuple', vals, TupPL((bn, an))), ('dflt', vals, (ddef,)),
+                    ('one+dflt', vals, (an, ddef)), ('key-same', kp(keys) + vals, kn + (an,)), ('null', vals, (dnull,)),
+                    # --- the rest only for the full targets
+                    ('dup', vals, (an, an)), ('key-absent', vals, (kn[0],)), ('key-absent+one', vals, (an, kn[-1])),
+                    ('key-same-notinpl', kp(keys) + vals, (an,)), ('key-only', kp(keys) + vals, kn),
+                    ('key-changed', kp(kc) + vals, (kn[-1], an)), ('key-changed-notinpl', kp(kc) + vals, (an,)),
+                    ('unknown', vals, (an, 'Nope')), ('unknown-only', vals, ('Nope',)),
+                    ('unknown-dup', vals, ('Nope', ('alt', 'Nope'))),
+                    ('badtype-inpl', (bad_a,) + vals[1:], (an,)), ('badtype-notinpl', (bad_a,) + vals[1:], (bn,)),
+                    ('undeclared-notinpl', vals + (('Nope', 'string', False, 'x'),), (an,)),
+                    ('undeclared-inpl', vals + (('Nope', 'string', False, 'x'),), (an, 'Nope')),
+                    ('mi-empty', (), (an, ddef)), ('mi-empty-none', (), None), ('mi-empty-empty', (), ())]
+        NREDUCED = 12
+
+        vroot = (('P_s', 'string', False, 'm1'), ('P_sa', 'string', True, ['q', 'r']))
+        mt = [('rootA', [c['root_a']], ns1, 'T_Root', 'T_Root', ka, vroot, 'P_u64', 'P_u8', True),
+              ('rootB', [c['root_b']], ns1, 'T_Root', 'T_Root', kb, vroot, 'P_u64', 'P_u8', False)]
+        if 'mid_a' in c:
+            vmid = (('P_s', 'string', False, 'm2'), ('P_b', 'boolean', False, False), ('P_u16a', 'uint16', True, [7]))
+            mt.append(('mid', [c['root_a'], c['mid_a']], ns1, 'T_Mid', 'T_Mid', ka, vmid, 'P_u64', 'P_i64', False))
+        if 'leaf_a' in c:
+            vleaf = (('P_s', 'string', False, 'm3'), ('P_i8', 'sint8', False, 5), ('P_ra', 'real32', True, [0.5]))
+            mt.append(('leaf', [c['mid_a'], c['leaf_a']], ns1, 'T_Leaf', 'T_Leaf', ka, vleaf, 'P_i16', 'P_r32', False))
+        if othernss:
+            mt.append(('root@1', [c['root_a'], c['root_a@1']], swap(othernss[0]), 't_root', 'T_ROOT', ka, vroot,
+                       'P_u64', 'P_u8', False))
+        def vary(vals, n):
+            """Different new values for every op, so that a write that did not happen shows after earlier writes."""
+            out = []
+            for name, t, arr, v in vals:
+                one = lambda x: (x + str(n) if isinstance(x, str) else (n % 2 == 0) if isinstance(x, bool) else  # noqa: E731
+                                 x + n % 50 if isinstance(x, int) else x + n)
+                out.append((name, t, arr, [one(x) for x in v] if isinstance(v, list) else one(v)))
+            return tuple(out)
+
+        def sweep_modify(prefix, nshapes, shapes_of, usepairs, mkop):
+            good = []
+            for i in range(nshapes):
+                for ms, ps in usepairs:
+                    counter[0] += 1
+                    mi, pl = shapes_of(counter[0])[i]
+                    op, isnew = reg(mkop(styled_props(mi, ms), styled_pl(pl, ps)))
+                    if not isnew:
+                        continue
+                    e = expect_after(prefix, op)
+                    if e.ok and not e.hints and not e.opt:
+                        good.append(op)
+                    else:
+                        H.append(prefix + [op])
+            PLW.extend(good)
+            # quick: the modifies that the model expects to succeed run three to a history (different shapes)
+            k = max(1, -(-len(good) // 3)) if quick else max(1, len(good))
+            for j in range(k):
+                H.append(prefix + good[j::k])
+
+        counter = [0]
+        for ti, (_tag, prefix, ns, icls, pcls, keys, vals, ddef, dnull, full) in enumerate(mt):
+            PLPRE.append(prefix)
+            nshapes = len(modify_shapes(keys, vals, ddef, dnull)) if full else NREDUCED
+            usepairs = pairs if full or not quick else pairs[ti % 2::2]
+            sweep_modify(prefix, nshapes,
+                         lambda n, a=(keys, vals, ddef, dnull): [(mi, pl) for _s, mi, pl in
+                                                                 modify_shapes(a[0], vary(a[1], n), a[2], a[3])],
+                         usepairs,
+                         lambda mi, pl, a=(ns, icls, pcls, keys): ('modify', a[0], a[1], (a[2], a[3]), mi, pl))
+        if S.assoc:
+            ra, rb = self.ref(ns1, ka), self.ref(ns1, kb)
+            akeys = (('L', 'reference', ra), ('R', 'reference', rb))
+            aprefix = [c['root_a'], c['root_b'], c['assoc_ab']]
+            PLPRE.append(aprefix)
+            lr = (('L', 'reference', False, ra), ('R', 'reference', False, rb))
+
+            def assoc_shapes(n):
+                n2 = vary((('N', 'string', False, 'n'),), n)
+                return [(n2, None), (n2, ()), (n2, ('N',)), (n2, ('N', ('alt', 'N'))), (n2, 'N'),
+                        (lr + n2, ('L', 'N')), (lr + n2, ('R', 'L')), (lr + n2, ('N',)), (lr, ('N',)),
+                        (n2, ('N', 'Nope'))]
+            sweep_modify(aprefix, len(assoc_shapes(0)), assoc_shapes, pairs if not quick else pairs[1::2],
+                         lambda mi, pl: ('modify', ns1, 'T_Assoc', ('T_Assoc', akeys), mi, pl))
+
+        # ---------------- GetInstance
+        def chunks(prefix, obs):
+            for i in range(0, len(obs), chunk):
+                H.append(prefix + obs[i:i + chunk])
+
+        def get_shapes(sn, kn, absent):
+            a, b = sn[0], sn[1]
+            return [None, (), (a,), (b, a), tuple(reversed(tuple(sn) + tuple(kn))), (a, a),
+                    (a, ('alt', a), b, ('alt', a)), a, TupPL((a, b)), (kn[0],), (kn[-1], a), (a, 'Nope'), ('Nope',),
+                    ('Nope', ('alt', 'Nope')), (absent,), (absent, a)]
+
+        state = [c['root_a'], c['root_b'], c['other_1']] + [c[n] for n in ('mid_a', 'leaf_a') if n in c]
+        if othernss:
+            state += [c['root_a@1'], c['root_b@1']]
+        PLPRE.append(state)
+        rootk = tuple(k[0] for k in ka)
+        gt = [(ns1, ('T_Root', ka), ('P_s', 'P_u8', 'P_sa', 'P_u64'), rootk, 'P_b'),
+              (swap(ns1), ('t_ROOT', self.kcased), ('P_u64', 'P_sa', 'P_s'), rootk, 'P_r32'),
+              (ns1, ('T_Root', kb), rootk + ('K',), rootk, 'P_s'),
+              (ns1, ('T_Other', self.other1), ('O_u16', 'O_c16a', 'O_i32'), ('ID',), 'P_s')]
+        if 'mid_a' in c:
+            gt.append((ns1, ('T_Mid', ka), ('P_s', 'P_b', 'P_u16a', 'P_dt'), rootk, 'P_u64'))
+        if 'leaf_a' in c:
+            gt.append((ns1, ('T_Leaf', ka), ('P_emb', 'P_dta', 'P_u8', 'P_b'), rootk, 'P_i16'))
+        if othernss:
+            gt.append((othernss[0], ('T_Root', ka), ('P_s', 'P_u64'), rootk, 'P_b'))
+        for ns, path, sn, kn, absent in gt:
+            obs = []
+            for pl in get_shapes(sn, kn, absent):
+                for ps in ostyles:
+                    op, isnew = reg(('get', ns, path, styled_pl(pl, ps), ()))
+                    if isnew:
+                        obs.append(op)
+            op, _n = reg(('get', ns, path, styled_pl((sn[0], kn[0]), 'swap'),
+                          (('LocalOnly', True), ('IncludeQualifiers', True), ('IncludeClassOrigin', True))))
+            obs.append(op)
+            PLO.extend(obs)
+            chunks(state, obs)
+        if S.assoc:
+            astate = [c['root_a'], c['root_b'], c['assoc_ab']]
+            obs = []
+            for pl in get_shapes(('N', 'R'), ('L', 'R'), 'X'):
+                for ps in ostyles:
+                    op, isnew = reg(('get', ns1, ('T_Assoc', akeys), styled_pl(pl, ps), ()))
+                    if isnew:
+                        obs.append(op)
+            PLO.extend(obs)
+            chunks(astate, obs)
+
+        # ---------------- EnumerateInstances
+        def enum_shapes(a, b, k0, sub, more):
+            return [(), (a,), (a, b), (k0, a), (a, a), (a, ('alt', a), b, ('alt', a)), ('Nope', a), a, TupPL((b, a)),
+                    (b, sub), tuple(reversed(more)), ('Nope',)]
+
+        et = [(ns1, 'T_Root', ('P_s', 'P_b', rootk[0], 'P_r32', ('P_u8', 'P_sa', 'P_i16', 'P_emb', 'P_c16')))]
+        if 'mid_a' in c:
+            et.append((swap(ns1), 't_MID', ('P_s', 'P_b', rootk[-1], 'P_i8', ('P_u64', 'P_dt', 'P_ba'))))
+        if othernss:
+            et.append((othernss[0], 'T_Root', ('P_s', 'P_u64', rootk[0], 'P_b', ('P_u8', 'P_sa'))))
+        if not quick:
+            et.append((ns1, 'T_Other', ('O_u16', 'O_i32', 'ID', 'P_s', ('O_u32a', 'O_c16a'))))
+            if 'leaf_a' in c:
+                et.append((ns1, 'T_Leaf', ('P_s', 'P_emb', rootk[0], 'P_i16', ('P_ra', 'P_b', 'P_u8'))))
+        for ns, cn, args in et:
+            obs = []
+            for pl in enum_shapes(*args):
+                for di in (None, False, True):
+                    for ps in estyles:
+                        op, isnew = reg(('enum', ns, cn, di, styled_pl(pl, ps), ()))
+                        if isnew:
+                            obs.append(op)
+            op, _n = reg(('enum', ns, cn, False, styled_pl((args[0], args[2]), 'upper'),
+                          (('LocalOnly', True), ('IncludeQualifiers', True), ('IncludeClassOrigin', True))))
+            obs.append(op)
+            PLO.extend(obs)
+            chunks(state, obs)
+        if S.assoc:
+            obs = []
+            for pl in enum_shapes('N', 'X', 'L', 'P_s', ('R', 'N', 'L')):
+                for ps in estyles:
+                    op, isnew = reg(('enum', ns1, 'T_Assoc', None, styled_pl(pl, ps), ()))
+                    if isnew:
+                        obs.append(op)
+            PLO.extend(obs)
+            chunks(astate, obs)
+
+        # ---------------- PropertyList entries that are not strings
+        for opname in ('ModifyInstance', 'GetInstance', 'EnumerateInstances'):
+            for pl in ((5,), (None,), ('P_s', None), (('P_s',),)):
+                op, _n = reg(('badpl', opname, ns1, ('T_Root', ka), pl))
+                H.append([c['root_a'], op])
+        base = len(self.ALL)
+        for i, op in enumerate(ops):
+            self.index[id(op)] = base + i
+        self.PLH, self.PLW, self.PLO, self.PLPRE = H, PLW, PLO, PLPRE
+
 
 # ------------------------------------------------------------------------------------- main
 def main():
@@ -1241,6 +1537,20 @@ def main():
             ln = rnd.randint(3, 6)
             hist = [(A.CW + A.CO)[rnd.randrange(len(A.CW) + len(A.CO))] for _j in range(ln)]
             go(hist, EVERY, 'every')
+        # (5) PropertyList sweep: list shape x case of the entries x case of the ModifiedInstance names
+        A.build_pl(quick)
+        for hist in A.PLH:
+            go(hist)
+        # (6) seeded random histories over the sweep ops: a sweep state, then 3..6 PropertyList modifies that the model
+        #     expects to succeed / PropertyList observers / core write ops (its own generator: parts 1-4 stay as they were)
+        rnd2 = random.Random(R.seed * 7919 + 17 + si)
+        for _ in range(100 if quick else 800):
+            hist = list(A.PLPRE[rnd2.randrange(len(A.PLPRE))])
+            for _j in range(rnd2.randint(3, 6)):
+                r = rnd2.random()
+                pool = A.PLW if r < 0.5 else A.PLO if r < 0.8 else A.CW
+                hist.append(pool[rnd2.randrange(len(pool))])
+            go(hist)
     # Run.violation keeps the first 5 ids only: unknown ones first; the full list goes to stderr
     order = sorted(FOUND, key=lambda v: (v.startswith('known:'), v))
     for vid in order:
